@@ -157,6 +157,41 @@ pub fn count_ladder_programs(tier: crate::shard::Tier) -> Vec<(usize, Vec<Stmt>)
             }
         }
     }
+    // the program's result is a root to the very end: a fresh heap value made by an expression statement, N live
+    // objects, and then nothing but declarations whose initialisers call functions that return WITHOUT a value /
+    // with one / not at all (every kind of return is a collection point; the result is what the caller gets)
+    for n in [0usize, 1, 100, 255, 256, 257, 511, 512, 513, 600, 1023, 1024, 1025, 2049, 4097] {
+        for result_kind in 0..3 {
+            for tail_kind in 0..5 {
+                let result = match result_kind {
+                    0 => infix(flt(1.5), Operator::Add, flt(1.0)),
+                    1 => array(vec![infix(calln("float", vec![id("i")]), Operator::Add, flt(0.5)), string("s")]),
+                    _ => calln("string", vec![id("i")]),
+                };
+                let mut prog = vec![
+                    es(func("klaar", &[], vec![let_("n", int(0))])),
+                    es(func("leeg", &[], vec![])),
+                    es(func("waarde", &[], vec![es(array(vec![flt(1.5)]))])),
+                    es(func("binnen", &[], vec![let_("m", calln("klaar", vec![]))])),
+                    let_("bewaar", array(vec![])),
+                    let_("i", int(0)),
+                    es(whil(infix(id("i"), Operator::Lt, int(n as i64)), vec![es(assign(id("bewaar"), array(vec![id("bewaar"), infix(calln("float", vec![id("i")]), Operator::Add, flt(0.5))]))), es(op_assign("i", Operator::Add, int(1)))])),
+                    es(result),
+                ];
+                match tail_kind {
+                    0 => {}
+                    1 => prog.push(let_("y", calln("klaar", vec![]))),
+                    2 => prog.push(let_("y", calln("leeg", vec![]))),
+                    3 => prog.push(let_("y", calln("waarde", vec![]))),
+                    _ => {
+                        prog.push(let_("y", calln("binnen", vec![])));
+                        prog.push(let_("z", array(vec![id("y"), calln("klaar", vec![])])));
+                    }
+                }
+                out.push((n, prog));
+            }
+        }
+    }
     for n in sizes {
         let ni = n as i64;
         // two phases: N objects survive a first collection; then, nine times, fresh values are stored into
